@@ -35,8 +35,21 @@ var siblingSwaps = map[string]string{
 	"Load": "LoadOrStore", "Add": "Remove", "Remove": "Add", "dirty": "read",
 }
 
-func genMutants(repo string, files []string, max int, seed int64) []sweepMutant {
+func genMutants(repo string, files []string, ranges map[string][][2]int, max int, seed int64) []sweepMutant {
 	var all []sweepMutant
+	const slack = 6
+	inRange := func(rel string, line int) bool {
+		rs := ranges[rel]
+		if len(rs) == 0 {
+			return true
+		}
+		for _, r := range rs {
+			if line >= r[0]-slack && line <= r[1]+slack {
+				return true
+			}
+		}
+		return false
+	}
 	for _, rel := range files {
 		path := filepath.Join(repo, rel)
 		src, err := os.ReadFile(path)
@@ -163,6 +176,13 @@ func genMutants(repo string, files []string, max int, seed int64) []sweepMutant 
 				if desc == "" {
 					continue
 				}
+				var ln int
+				if i := strings.Index(desc, ":"); i >= 0 {
+					fmt.Sscanf(desc[i+1:], "%d", &ln)
+				}
+				if !inRange(rel, ln) {
+					continue
+				}
 				var buf bytes.Buffer
 				if err := format.Node(&buf, fs, g); err != nil {
 					continue
@@ -203,9 +223,60 @@ func anchorFiles(verif, prop string) []string {
 	return nil
 }
 
+// anchorRanges: the line ranges of the property's mechanism and state anchors, per file ("f.go:10-20,30" forms).
+// The numbers refer to the pinned tree; later commits shift them a little, hence the slack at use.
+func anchorRanges(verif, prop string) map[string][][2]int {
+	out := map[string][][2]int{}
+	b, err := os.ReadFile(filepath.Join(verif, "properties.jsonl"))
+	if err != nil {
+		return out
+	}
+	for _, l := range strings.Split(string(b), "\n") {
+		if strings.TrimSpace(l) == "" {
+			continue
+		}
+		var p struct {
+			ID      string `json:"id"`
+			Anchors struct {
+				Mechanism []struct {
+					Where string `json:"where"`
+				} `json:"mechanism"`
+				State []struct {
+					Where string `json:"where"`
+				} `json:"state"`
+			} `json:"anchors"`
+		}
+		if json.Unmarshal([]byte(l), &p) != nil || p.ID != prop {
+			continue
+		}
+		add := func(w string) {
+			i := strings.LastIndex(w, ":")
+			if i < 0 {
+				return
+			}
+			file := w[:i]
+			for _, r := range strings.Split(w[i+1:], ",") {
+				var a, b int
+				if n, _ := fmt.Sscanf(r, "%d-%d", &a, &b); n == 2 {
+					out[file] = append(out[file], [2]int{a, b})
+				} else if n, _ := fmt.Sscanf(r, "%d", &a); n == 1 {
+					out[file] = append(out[file], [2]int{a, a})
+				}
+			}
+		}
+		for _, m := range p.Anchors.Mechanism {
+			add(m.Where)
+		}
+		for _, m := range p.Anchors.State {
+			add(m.Where)
+		}
+	}
+	return out
+}
+
 func runSweep(c *Ctx, spec *propSpec, seed int64) {
 	files := anchorFiles(c.Verif, spec.id)
-	muts := genMutants(c.Repo, files, 120, seed)
+	muts := genMutants(c.Repo, files, anchorRanges(c.Verif, spec.id), 250, seed)
 	if len(muts) == 0 {
 		return
 	}
@@ -256,9 +327,7 @@ func runSweep(c *Ctx, spec *propSpec, seed int64) {
 			killed++
 		case 0:
 			survived++
-			if len(survivors) < 40 {
-				survivors = append(survivors, muts[i].desc)
-			}
+			survivors = append(survivors, muts[i].desc)
 		default:
 			invalid++
 		}
